@@ -269,6 +269,8 @@ func mkC13(entry, shape, rule string) *C13Case {
 var c13Hostile = []string{
 	"a\x00'b\"\n\\\x1a", "\x00", "\x1a'", "'\"\\\r\t\n", strings.Repeat("a", 257), "{" + strings.Repeat("\"", 300), "[" + strings.Repeat("[", 5000), strings.Repeat("é", 200),
 	"\xff\xfe", strings.Repeat("9", 400), "1e400", "-0", "0x10", " ", "\t\n", strings.Repeat("1,", 3000), strings.Repeat("a@", 200) + "b.c", strings.Repeat("1:", 40), "１２３", "\u2028\ufeff",
+	// nothing but continuation bytes / nothing but lead bytes, longer than any echo limit: no rune boundary to cut at
+	strings.Repeat("\x80", 300), strings.Repeat("\xbf", 1030), strings.Repeat("\xe4", 300), "a" + strings.Repeat("\x80\xbf", 200),
 }
 
 func c13AllShapes() map[string]func() interface{} {
